@@ -315,15 +315,8 @@ pub fn build(case: &Case, ctx: &mut CaseCtx) -> Built {
                     2 => Some(Expiration::AtHeight(h + 35)),
                     _ => None,
                 };
-                must(
-                    exec(
-                        &mut app,
-                        proposer,
-                        &flex,
-                        &ExecuteMsg::Propose { title: format!("proposal {i}"), description: format!("description {}", i * 31), msgs: proposal_msgs(i, &ms[0]), latest },
-                    ),
-                    "propose",
-                );
+                let (title, description) = crate::fixed::proposal_texts(i);
+                must(exec(&mut app, proposer, &flex, &ExecuteMsg::Propose { title, description, msgs: proposal_msgs(i, &ms[0]), latest }), "propose");
                 let id = i as u64 + 1;
                 required.insert(Key::Id(id));
                 if i % 3 == 1 {
